@@ -1,11 +1,13 @@
 #!/bin/bash
-# usage: seedbatch.sh Cxx   -- takes /var/tmp/seeded-pending/Cxx-a/<i>, validates, runs the check, records under seeded/
-id=$1
+# usage: seedbatch.sh Cxx [round]  -- takes /var/tmp/seeded-pending/Cxx-<round>/<i> (round defaults to a), validates each
+# change in a scratch worktree, runs the property's quick check against it, records under seeded/Cxx-<i> (round a) or
+# seeded/Cxx-<round><i> (later rounds)
+id=$1; rnd=${2:-a}
 cd /verif
-for d in /var/tmp/seeded-pending/$id-a/*/; do
+for d in /var/tmp/seeded-pending/$id-$rnd/*/; do
   i=$(basename $d)
   [ -f $d/patch.diff ] || continue
-  t=seeded/$id-$i
+  if [ "$rnd" = a ]; then t=seeded/$id-$i; else t=seeded/$id-$rnd$i; fi
   mkdir -p $t; cp $d/patch.diff $d/demo.cpp $d/meta.json $t/ 2>/dev/null
   if python3 tools/seedtest.py validate $t > /dev/null 2>&1; then
     python3 tools/seedtest.py detect $t $id | tail -1
